@@ -315,7 +315,13 @@ class disassembler(object):
                     if i.spec.pfx is True:
                         if self.__i is None:
                             self.__i = i
-                        return self(bytestring[s.mask.size // 8 :], **kargs)
+                        try:
+                            return self(bytestring[s.mask.size // 8 :], **kargs)
+                        except Exception:
+                            # (e.g. recursion depth exceeded by a very long run of
+                            # prefixes): forget the pending prefixes as well.
+                            self.__i = None
+                            raise
                     self.__i = None
                     if i.spec.pfx == "xdata":
                         i.xdata(i,**kargs)
